@@ -105,6 +105,9 @@ def run_bus_part(ctx, rnd):
     # histories that differ are run once more before they are believed (timing-dependent waits under load)
     again = [i for i, r in enumerate(res) if r["status"] in ("differ", "aborted")]
     if again:
+        if any(res[i]["status"] == "aborted" for i in again):
+            with vlib.Lock():                 # a rebuild by a concurrent check may have had the binaries away for a moment
+                pass
         res2, _ = ac.run_bus(info["daemon"], info["model_activation"], [cases[i] for i in again], procs=2)
         for i, r2 in zip(again, res2):
             r2["first_run"] = {"status": res[i]["status"], "impl": res[i].get("impl"), "info": {k: v for k, v in res[i]["info"].items() if k != "stderr"}}
